@@ -770,6 +770,16 @@ class C08(_Base):
             ops = ["render", "tagify_ro", "render", "str", "docrender", "tagify_ro", "get_dependencies", "render", "views", "repr"]
             gens.append({"kind": "hist", "tree": bad, "seed": n, "hist": [
                 {"act": "ReadOnly", "i": 1, "op": ops[(n + j * 3) % len(ops)], "kind": "", "ord": 0} for j in range(8)]})
+        # every kind of dependency of the generator, with the dependency's own methods called between the other
+        # read-only operations (the methods leave the dependency - also its source / script / stylesheet / meta values - as it was)
+        for n in range(18 if tier == "quick" else 180):
+            names = ["h@1.0", "e@2", "g@3", "n@1", "d@1.0", "f@0.1"]
+            own = {"f": "T", "name": "div", "ws": True, "attrs": [], "kids": [
+                {"f": "S", "v": "a"}, {"f": "D", "name": names[n % 6]},
+                {"f": "T", "name": "p", "ws": n % 2 == 0, "attrs": [], "kids": [{"f": "D", "name": names[(n + 1) % 6]}, {"f": "D", "name": names[n % 6]}]}]}
+            ops = ["dep_methods", "render", "dep_methods", "str", "docrender", "save_html", "dep_methods", "get_dependencies", "views", "tagify_ro"]
+            gens.append({"kind": "hist", "tree": own, "seed": n, "hist": [
+                {"act": "ReadOnly", "i": 1, "op": ops[(n + j * 3) % len(ops)], "kind": "", "ord": 0} for j in range(8)]})
         for n in range(300 if tier == "quick" else 6000):
             t = rand_tree(rnd, rnd.choice([6, 15, 40]))
             if rnd.random() < 0.25:
